@@ -241,6 +241,8 @@ def analyzer_history(rec, seedt):
               backend=str(rng.choice(["numba", "numpy"])), Jdes=int(rng.choice([8, 30])),
               Kdes=int(rng.choice([3, 20])), olap=float(rng.choice([0.3, 0.5, 0.75])))
     kw.update(api.win_args(api.random_window(rng)))
+    if rng.random() < 0.2:
+        kw["band"] = (0.02 * 1.0, 0.3 * 1.0)  # scaled by fs below
     if rng.random() < 0.25 and kw["scheduler"] != "vectorized_ltf":
         # forced bin count with a REACHABLE target: the bin count an unforced plan with a Jdes
         # inside the search range produces
@@ -251,6 +253,8 @@ def analyzer_history(rec, seedt):
         except Exception:
             pass
     fs = float(rng.choice([1.0, 50.0]))
+    if "band" in kw:
+        kw["band"] = (kw["band"][0] * fs, kw["band"][1] * fs)
     nops = int(rng.integers(5, 31))
     ops = []
     for _ in range(nops):
